@@ -270,3 +270,12 @@ def r5(ctx, f, levels, fdpoll, hdr):
         ctx.check('R5', 'every-iteration-polls-%s' % src, ok, calls[0] if calls else f,
                   '%s->poll runs in every iteration (guarded only by the slot being set)' % src,
                   '%s->poll is skipped in some iterations' % src)
+    # the descriptor poll itself is never skipped: with a zero timeout it is what moves ready descriptors (and signal deliveries)
+    # into the levels while jobs and timers keep the loop busy
+    runs = list(f.calls('qb_loop_run_level'))
+    if not runs:
+        raise AnalysisBroken('qb_loop_run: no level dispatch')
+    h3, _e3, _n3 = f.search(('block', hdr), goal=lambda ev: any(ev.d is r.d for r in runs), stop=lambda ev: ev is fdpoll or ev.d is fdpoll.d)
+    ctx.check('R5', 'every-iteration-polls-fd_source', not h3, fdpoll,
+              'every iteration polls the descriptors before it dispatches a level',
+              'an iteration can dispatch without having polled the descriptors: while jobs or timers keep the loop busy, ready descriptors and signals are never looked at (starved)')
